@@ -17,4 +17,4 @@ func VerifPages(m *Memory) (nums []uint32, acc []int, vals [][]byte) {
 	return
 }
 
-func VerifHeap(m *Memory) (uint64, uint64) { return m.heapPointer, m.heapLimit }
+func VerifHeap(m *Memory) (uint64, uint64) { return verifHeap(m) }
